@@ -36,10 +36,19 @@ type mEntry struct {
 	builtin string
 }
 
+type mIOField struct {
+	loc      int
+	ty       string // u32 i32 f32 vec2<f32> vec4<f32>
+	interp   string // "" flat linear perspective
+	sampling string // "" center centroid sample
+	attrs    string // rendered attribute list (random order)
+}
+
 type mModule struct {
 	globals []mGlobal
 	helpers []mFunc
 	entries []mEntry
+	io      []mIOField // fields of the shared vertex-output / fragment-input struct VO
 }
 
 func (m *mModule) readExpr(g int) string {
@@ -151,6 +160,39 @@ func genMulti(c *ctx) *mModule {
 		}
 		m.helpers = append(m.helpers, h)
 	}
+	// stage IO struct: 0-4 located fields with interpolation attributes in random attribute order
+	usedLoc := map[int]bool{}
+	for i, nf := 0, c.rng.Intn(5); i < nf; i++ {
+		f := mIOField{loc: c.rng.Intn(16)}
+		if usedLoc[f.loc] {
+			continue
+		}
+		usedLoc[f.loc] = true
+		f.ty = []string{"u32", "i32", "f32", "vec2<f32>", "vec4<f32>"}[c.rng.Intn(5)]
+		if f.ty == "u32" || f.ty == "i32" {
+			f.interp = "flat"
+		} else {
+			f.interp = []string{"", "", "flat", "linear", "perspective"}[c.rng.Intn(5)]
+			if f.interp == "linear" || f.interp == "perspective" {
+				f.sampling = []string{"", "center", "centroid", "sample"}[c.rng.Intn(4)]
+			}
+		}
+		locA := fmt.Sprintf("@location(%d)", f.loc)
+		intA := ""
+		if f.interp != "" {
+			intA = "@interpolate(" + f.interp
+			if f.sampling != "" {
+				intA += ", " + f.sampling
+			}
+			intA += ")"
+		}
+		if intA != "" && c.chance(0.5) {
+			f.attrs = intA + " " + locA
+		} else {
+			f.attrs = strings.TrimSpace(locA + " " + intA)
+		}
+		m.io = append(m.io, f)
+	}
 	ne := 1 + c.rng.Intn(4)
 	for i := 0; i < ne; i++ {
 		e := mEntry{name: fmt.Sprintf("ep%d", i), stage: []string{"compute", "compute", "vertex", "fragment"}[c.rng.Intn(4)]}
@@ -205,6 +247,11 @@ func (m *mModule) stagesOf() [][]string {
 func (m *mModule) wgsl() string {
 	var b strings.Builder
 	b.WriteString("struct UB { a: vec4<u32>, }\n")
+	b.WriteString("struct VO {\n  @builtin(position) p: vec4<f32>,\n")
+	for i, f := range m.io {
+		fmt.Fprintf(&b, "  %s f%d: %s,\n", f.attrs, i, f.ty)
+	}
+	b.WriteString("}\n")
 	for _, g := range m.globals {
 		b.WriteString(g.decl + "\n")
 	}
@@ -268,9 +315,17 @@ func (m *mModule) wgsl() string {
 		case "compute":
 			fmt.Fprintf(&b, "@compute @workgroup_size(%d, %d, %d)\nfn %s() {\n%s}\n", e.wg[0], e.wg[1], e.wg[2], e.name, body.String())
 		case "vertex":
-			fmt.Fprintf(&b, "@vertex\nfn %s(@builtin(vertex_index) vi: u32, @location(0) pos: vec4<f32>) -> @builtin(position) vec4<f32> {\n%s  return pos + vec4<f32>(f32(acc + vi));\n}\n", e.name, body.String())
+			fmt.Fprintf(&b, "@vertex\nfn %s(@builtin(vertex_index) vi: u32, @location(0) pos: vec4<f32>) -> VO {\n%s  var o: VO;\n  o.p = pos + vec4<f32>(f32(acc + vi));\n", e.name, body.String())
+			for i, f := range m.io {
+				fmt.Fprintf(&b, "  o.f%d = %s(%s);\n", i, f.ty, map[string]string{"u32": "acc", "i32": "i32(acc)", "f32": "f32(acc)", "vec2<f32>": "f32(acc)", "vec4<f32>": "f32(acc)"}[f.ty])
+			}
+			b.WriteString("  return o;\n}\n")
 		default:
-			fmt.Fprintf(&b, "@fragment\nfn %s(@location(1) uv: vec2<f32>) -> @location(0) vec4<f32> {\n%s  return vec4<f32>(uv, f32(acc), 1.0);\n}\n", e.name, body.String())
+			fmt.Fprintf(&b, "@fragment\nfn %s(vin: VO) -> @location(0) vec4<f32> {\n%s  var col: f32 = vin.p.x + f32(acc);\n", e.name, body.String())
+			for i, f := range m.io {
+				fmt.Fprintf(&b, "  col = col + f32(vin.f%d%s);\n", i, map[string]string{"vec2<f32>": ".y", "vec4<f32>": ".w"}[f.ty])
+			}
+			b.WriteString("  return vec4<f32>(col);\n}\n")
 		}
 	}
 	return b.String()
